@@ -3107,6 +3107,22 @@ def _usage(ctx):
             o2.undecided(f, w, 'resource loop', "the day loop does not contain exactly one loop emitting the resource cells")
             return
         rl = inner[0]
+        rl_emit = rl          # the loop that puts the cells of a day line into the table
+        first_cells = None
+        if isinstance(rl.iter, ast.Name):
+            # the line is collected first: `line = [<date cell>]; for k in resources: line.append(..)`, then emitted in one loop
+            lname = rl.iter.id
+            ldefs = fl.reaching(lname, cfg.node_of(rl))
+            apps = [x for x in facts.calls_named(f, 'append') if in_w(x) and isinstance(x.func, ast.Attribute)
+                    and isinstance(x.func.value, ast.Name) and x.func.value.id == lname]
+            if apps and len(ldefs) == 1 and ldefs[0].kind == 'assign' and isinstance(ldefs[0].value, ast.List) and in_w(ldefs[0].value):
+                srcs = []
+                for x in apps:
+                    fs_ = [fo for fo in cfg.enclosing_fors(cfg.node_containing(x)) if in_w(fo)]
+                    if fs_ and not any(fs_[-1] is y for y in srcs):
+                        srcs.append(fs_[-1])
+                if len(srcs) == 1 and all([fo for fo in cfg.enclosing_fors(cfg.node_containing(x)) if in_w(fo)] for x in apps):
+                    rl, first_cells = srcs[0], (ldefs[0].value.elts, ldefs[0].node)
         ratom = c.loop_atom(f, rl)
         # the cells of a day line may come from a package generator that yields one (text, ..) per resource
         gs = gen_summary(c, f, rl.iter) if isinstance(rl.iter, ast.Call) else None
@@ -3167,9 +3183,18 @@ def _usage(ctx):
                 o2.site(f, x, src(x))
             else:
                 o2.refute(f, x, x, f"resource cell shows `{src(x)}`, expected reserved({kvar}, {d}) for the day of this line")
+        if first_cells is not None:
+            elts, lnode = first_cells
+            texts = [(e_.elts[0] if isinstance(e_, ast.Tuple) and e_.elts else e_) for e_ in elts]
+            if len(texts) == 1 and mentions(ex.expand(texts[0], lnode, stop={d}), d) and fl.same_version(d, dref, lnode):
+                o2.site(f, texts[0], f"date cell {src(texts[0])} (first element of the collected line)")
+            elif len(texts) == 1 and mentions(ex.expand(texts[0], lnode, stop={d}), d):
+                o2.refute(f, texts[0], texts[0], f"the date cell is computed after `{d}` was advanced: every line shows the following day")
+            else:
+                o2.undecided(f, rl_emit, 'date cell', "the collected line does not start with exactly one cell showing the day")
         for x in cell_calls:
             xn = cfg.node_containing(x)
-            if in_w(x) and not any(fo is rl for fo in cfg.enclosing_fors(xn)):
+            if first_cells is None and in_w(x) and not any(fo is rl for fo in cfg.enclosing_fors(xn)):
                 a0 = x.args[0] if x.args else None
                 if a0 is not None and mentions(ex.expand(a0, xn, stop={d}), d) and fl.same_version(d, dref, xn):
                     o2.site(f, x, f"date cell {src(a0)}")
